@@ -27,7 +27,7 @@ func init() {
 		ID:    "C17",
 		Level: "exploration",
 		Rule: "token sets T with |T| in {0,1,2,5,40} (mixed delegations/invocations, all key kinds, insertion order permuted); FULL matrix 4 formats x {bytes, stream} writer x {bytes, stream} reader for every T: reading must succeed, the key set must equal {CID of sealed bytes} (computed by the harness), every token must equal the direct decode of its sealed bytes and be retrievable through GetToken / GetDelegation / GetInvocation / GetAll*. " +
-			"single-entry corruptions of containers built by the harness's own CAR/CBOR encoders: each entry in turn bit-flipped in payload and in signature (CAR: with the stale CID and with a recomputed CID), replaced by non-token bytes, truncated; CAR: entry under another entry's CID, section length off by one; CBOR: wrong version key, extra key, non-bytes entry, non-map root; reading must fail, never return a partial or mislabelled set. " +
+			"single-entry corruptions of containers built by the harness's own CAR/CBOR encoders: each entry in turn bit-flipped in payload and in signature (CAR: with the stale CID and with a recomputed CID), replaced by non-token bytes, truncated; CAR: entry under another entry's CID, section length off by one, the file cut right after a section's length prefix / inside its CID / inside its data / inside the header; CBOR: the file cut at several offsets, CBOR: wrong version key, extra key, non-bytes entry, non-map root; reading must fail, never return a partial or mislabelled set. " +
 			"non-trivial = |T|>=2; distinct = (set digest, format, writer, reader) / (set digest, corruption, entry).",
 		Assumptions: []string{
 			"CID = CIDv1(dag-cbor, sha2-256) computed by ref.CID; CAR/CBOR container framing re-implemented in the harness (ref.BuildCAR / ref.EncodeDagCbor) to plant corruptions",
@@ -46,7 +46,7 @@ func init() {
 					}
 				}
 			}
-			for _, c := range []string{"car/bitflip-payload-stale-cid", "car/bitflip-payload-recomputed-cid", "car/bitflip-signature-recomputed-cid", "car/non-token", "car/truncated-entry", "car/wrong-cid", "car/length-off-by-one", "cbor/bitflip-payload", "cbor/bitflip-signature", "cbor/non-token", "cbor/truncated-entry", "cbor/wrong-version", "cbor/extra-key", "cbor/non-bytes-entry", "cbor/non-map-root"} {
+			for _, c := range []string{"car/bitflip-payload-stale-cid", "car/bitflip-payload-recomputed-cid", "car/bitflip-signature-recomputed-cid", "car/non-token", "car/truncated-entry", "car/wrong-cid", "car/length-off-by-one", "car/cut-after-length-prefix", "car/cut-inside-cid", "car/cut-inside-data", "car/cut-inside-header", "cbor/cut", "cbor/bitflip-payload", "cbor/bitflip-signature", "cbor/non-token", "cbor/truncated-entry", "cbor/wrong-version", "cbor/extra-key", "cbor/non-bytes-entry", "cbor/non-map-root"} {
 				cells = append(cells, "corrupt/"+c)
 			}
 			return cells
@@ -61,11 +61,11 @@ type sealedTok struct {
 	fields ref.V
 }
 
-func makeSealedSet(w *mon.W, n int, anyAlgPct int) []sealedTok {
+func makeSealedSet(w *mon.W, n int, anyAlgPct int, noBig ...bool) []sealedTok {
 	var out []sealedTok
 	for len(out) < n {
 		typ := []string{"dlg", "inv"}[w.Rng.IntN(2)]
-		s := gen.RandomSpec(w.Rng, typ, gen.SpecOpts{AnyAlgPct: anyAlgPct})
+		s := gen.RandomSpec(w.Rng, typ, gen.SpecOpts{AnyAlgPct: anyAlgPct, NoBig: len(noBig) > 0 && noBig[0]})
 		tk, err := s.Build()
 		if err != nil {
 			continue
@@ -360,6 +360,17 @@ func runC17(w *mon.W) {
 			}
 			return bl
 		}
+		entries := func(mod func() ref.V) []ref.V {
+			var es []ref.V
+			for i, t := range set {
+				if i == victim {
+					es = append(es, mod())
+				} else {
+					es = append(es, ref.Bytes(t.sealed))
+				}
+			}
+			return es
+		}
 		// CAR
 		expectFail("car/bitflip-payload-stale-cid", buildCAR(carBlocks(func(i int, c cid.Cid, d []byte) (cid.Cid, []byte) { return c, corrupt("bitflip-payload") }), -1, 0), 1)
 		expectFail("car/bitflip-payload-recomputed-cid", buildCAR(carBlocks(func(i int, c cid.Cid, d []byte) (cid.Cid, []byte) {
@@ -389,23 +400,42 @@ func runC17(w *mon.W) {
 			_ = mh.SHA2_512
 		}
 		expectFail("car/length-off-by-one", buildCAR(carBlocks(func(i int, c cid.Cid, d []byte) (cid.Cid, []byte) { return c, d }), victim, gen.Pick(r, []int{1, -1})), 1)
+		// the container file itself cut inside a section: right after the section's length
+		// prefix, inside its CID, inside its data (a cut exactly between two sections is C18's
+		// legitimately undetectable case and is not injected here)
+		{
+			good := buildCAR(carBlocks(func(i int, c cid.Cid, d []byte) (cid.Cid, []byte) { return c, d }), -1, 0)
+			cuts, _, err := ref.SplitCAR(good)
+			if err == nil && len(cuts) >= 2 {
+				for bi := 1; bi < len(cuts); bi++ {
+					start, end := cuts[bi-1], cuts[bi]
+					_, n := binary.Uvarint(good[start:])
+					for name, at := range map[string]int{"car/cut-after-length-prefix": start + n, "car/cut-inside-cid": start + n + 5, "car/cut-inside-data": start + n + 36 + (end-start-n-36)/2, "car/cut-inside-length-prefix": start + 1} {
+						if at <= start || at >= end || (name == "car/cut-inside-length-prefix" && n < 2) {
+							continue
+						}
+						expectFail(name, good[:at], 1)
+						if at%3 == 0 {
+							expectFail(name, []byte(base64.StdEncoding.EncodeToString(good[:at])), 3)
+						}
+					}
+				}
+				// inside the header section
+				expectFail("car/cut-inside-header", good[:cuts[0]/2], 1)
+			}
+			gc := buildCborContainer("ctn-v1", entries(func() ref.V { return ref.Bytes(v.sealed) }), false)
+			for _, at := range []int{1, len(gc) / 3, len(gc) / 2, len(gc) - 1} {
+				if at > 0 && at < len(gc) {
+					expectFail("cbor/cut", gc[:at], 0)
+				}
+			}
+		}
 		// base64 CAR of a corrupted CAR
 		{
 			raw := buildCAR(carBlocks(func(i int, c cid.Cid, d []byte) (cid.Cid, []byte) { return c, corrupt("bitflip-payload") }), -1, 0)
 			expectFail("car/bitflip-payload-stale-cid", []byte(base64.StdEncoding.EncodeToString(raw)), 3)
 		}
 		// CBOR
-		entries := func(mod func() ref.V) []ref.V {
-			var es []ref.V
-			for i, t := range set {
-				if i == victim {
-					es = append(es, mod())
-				} else {
-					es = append(es, ref.Bytes(t.sealed))
-				}
-			}
-			return es
-		}
 		for _, kind := range []string{"bitflip-payload", "bitflip-signature", "non-token", "truncated"} {
 			name := kind
 			if kind == "truncated" {
